@@ -54,6 +54,26 @@ def main(argv=None):
                 ctx.extra['selftest'] = selftest.run_for(pid, seed)
             except ImportError:
                 pass
+            # well-formedness of the normal form of the whole package (every rewritten function must unparse and compile)
+            try:
+                import ast as _ast
+                prog_n = frontend.Program(a.repo)
+                nzr = prog_n.enable_normal_form()
+                changed = bad_nf = 0
+                for f_ in prog_n._all_functions_raw():
+                    if f_.node is not f_._node:
+                        changed += 1
+                        try:
+                            compile(_ast.unparse(f_.node), f_.where, 'exec')
+                        except Exception:
+                            bad_nf += 1
+                ctx.extra['normal_form_inventory'] = {'functions_rewritten': changed, 'rewritten_that_do_not_compile': bad_nf,
+                                                      'call_sites_inlined': sum(len(v) for v in nzr.inlined.values()),
+                                                      'helpers_absorbed': sorted(prog_n.absorbed)}
+                print('normal form of the package: %d functions rewritten (%d call sites inlined, %d private helpers absorbed), %d do not compile'
+                      % (changed, sum(len(v) for v in nzr.inlined.values()), len(prog_n.absorbed), bad_nf))
+            except frontend.AnalysisError:
+                pass
             from . import sweeps
             sw = sweeps.run(prog)
             ctx.extra['package_wide_sweeps'] = sw
